@@ -238,12 +238,32 @@ public:
 
 #undef BinaryOp
 
+private:
+  // On plain integers, x op= y is x = static_cast<T>(x op y): the result of the
+  // binary operator, which the integer promotions may have given a wider type
+  // than T, is brought back to T before it is stored. (Without this the value
+  // handed to the assignment need not be a value of T; where the sandbox's
+  // representation of T is wide enough, it was stored as is.)
+  template<typename T_Res>
+  inline constexpr void assign_operator_result(T_Res res)
+  {
+    using T_ResRaw = detail::rlbox_remove_wrapper_t<T_Res>;
+    if constexpr (std::is_integral_v<T> && std::is_integral_v<T_ResRaw> &&
+                  !std::is_same_v<std::remove_cv_t<T>, T_ResRaw>) {
+      impl() = tainted<std::remove_cv_t<T>, T_Sbx>::internal_factory(
+        static_cast<std::remove_cv_t<T>>(res.get_raw_value()));
+    } else {
+      impl() = std::move(res);
+    }
+  }
+
+public:
 #define CompoundAssignmentOp(opSymbol)                                         \
   template<typename T_Rhs>                                                     \
   inline constexpr T_Wrap<T, T_Sbx>& operator opSymbol##=(const T_Rhs& rhs)    \
   {                                                                            \
     auto& this_ref = impl();                                                   \
-    this_ref = this_ref opSymbol rhs;                                          \
+    assign_operator_result(this_ref opSymbol rhs);                             \
     return this_ref;                                                           \
   }                                                                            \
   RLBOX_REQUIRE_SEMI_COLON
@@ -265,7 +285,7 @@ public:
   inline constexpr T_Wrap<T, T_Sbx>& operator opSymbol##opSymbol()             \
   {                                                                            \
     auto& this_ref = impl();                                                   \
-    this_ref = this_ref opSymbol 1;                                            \
+    assign_operator_result(this_ref opSymbol 1);                               \
     return this_ref;                                                           \
   }                                                                            \
   RLBOX_REQUIRE_SEMI_COLON
